@@ -32,9 +32,10 @@ def r_py_opts(rep, f):
     # (1) provenance of each local in parse_options: the dict key under which it is assigned
     prov = {}
     for i_ in tast.find(po["body"], lambda z: z.get("k") == "If" and z["cond"].get("k") == "LetExpr"
-                        and tast.contains(z["cond"]["init"], lambda q: q.get("k") == "MethodCall" and q.get("name") == "get_item")):
-        gi = tast.find(i_["cond"]["init"], lambda q: q.get("k") == "MethodCall" and q.get("name") == "get_item")[0]
-        k = gi["args"][0]
+                        and (tast.contains(z["cond"]["init"], lambda q: q.get("k") == "MethodCall" and q.get("name") == "get_item")
+                             or len(tast.find(z["cond"]["init"], lambda q: q.get("k") == "Lit" and q.get("lk") == "Str")) == 1)):
+        gis = tast.find(i_["cond"]["init"], lambda q: q.get("k") == "MethodCall" and q.get("name") == "get_item")
+        k = gis[0]["args"][0] if gis else tast.find(i_["cond"]["init"], lambda q: q.get("k") == "Lit" and q.get("lk") == "Str")[0]
         kv = k.get("v") if k.get("k") == "Lit" else None
         for a in tast.find(i_["then"], lambda z: z.get("k") == "Assign" and z["l"].get("k") == "Path"):
             prov.setdefault(a["l"]["id"], set()).add(kv)
@@ -658,43 +659,100 @@ INT_TYS = ("i8", "i16", "i32", "i64", "isize", "u8", "u16", "u32", "u64", "usize
 def r_py_float_extract(rep, f):
     """values SciPy documents as floats (the event attribute `direction`, rtol/atol, max_step, first_step) are extracted
     from Python as floats: an integer extraction fails for 1.0 / np.float64 and - the failure being dropped by the
-    surrounding `if let Ok(..)` - silently turns the setting off."""
+    surrounding `if let Ok(..)` / `.ok()` / `unwrap_or` - silently turns the setting off."""
     n = 0
+    seen = set()
+
+    def inner_ty(t):
+        t = t or ""
+        return t[len("std::result::Result<"):].rsplit(", pyo3::PyErr>", 1)[0] if t.startswith("std::result::Result<") else t
+
+    def judge(key, kname, tys, node):
+        nonlocal n
+        if key in seen:
+            return
+        seen.add(key)
+        n += 1
+        ints = [t for t in tys if t in INT_TYS or any(t == "std::vec::Vec<%s>" % it for it in INT_TYS) or any(t == "std::option::Option<%s>" % it for it in INT_TYS)]
+        floats = [t for t in tys if "f64" in t or "f32" in t]
+        if ints and not (floats and tys.index(floats[0]) < tys.index(ints[0])):
+            rep.violation("R-PY-FLOAT", key, "`%s` is extracted from Python as %s before any float extraction: a float value (1.0, numpy.float64) fails the extraction and the "
+                          "setting is silently ignored" % (kname, ints[0]), node.get("sp"))
+        elif not floats:
+            rep.inconc("R-PY-FLOAT", key, "extraction type(s) %s of `%s` not understood" % (tys, kname), node.get("sp"))
+        else:
+            rep.ok("R-PY-FLOAT", key, "`%s` extracted as %s" % (kname, floats[0]))
+    is_key = lambda q: q.get("k") == "Lit" and q.get("lk") == "Str" and q.get("v") in FLOAT_KEYS
     for fn in (PY + "parse_events", PY + "parse_options"):
         b = f.bodies.get(fn)
         if b is None:
             rep.inconc("R-PY-FLOAT", "R-PY-FLOAT:%s" % fn, "function not found in the python cfg")
             continue
         rep.fn(fn)
-        for i_ in tast.find(b["body"], lambda z: z.get("k") == "If" and z["cond"].get("k") == "LetExpr"):
-            look = tast.find(i_["cond"]["init"], lambda q: q.get("k") == "MethodCall" and q.get("name") in ("getattr", "get_item") and q.get("args")
-                             and q["args"][0].get("k") == "Lit" and q["args"][0].get("v") in FLOAT_KEYS)
-            if not look:
+        short = fn.split("::")[-1]
+        # (1) direct lookups: getattr("key") / get_item("key"); the extractions belong to the statement (or the if) around it
+        for look, parents in tast.find_with_parents(b["body"], lambda q: q.get("k") == "MethodCall" and q.get("name") in ("getattr", "get_item") and q.get("args") and is_key(q["args"][0])):
+            kname = look["args"][0]["v"]
+            cont = None
+            for a in parents:
+                if a.get("k") == "If" and tast.contains(a["cond"], lambda z: z is look):
+                    cont = a
+                    break
+            if cont is None:
+                for a in reversed(parents):
+                    if a.get("k") in ("Let", "ExprStmt", "Semi", "Assign"):
+                        cont = a
+                        break
+            if cont is None:
                 continue
-            kname = look[0]["args"][0]["v"]
-            binds = [q["id"] for q in tast.find(i_["cond"]["pat"], lambda q: q.get("k") == "PBind")]
-            exs = [mc for mc in tast.find(i_["then"], lambda z: z.get("k") == "MethodCall" and z.get("name") == "extract"
-                                          and tast.contains(z["recv"], lambda q: q.get("k") == "Path" and q.get("id") in binds))]
+            exs = tast.find(cont, lambda z: z.get("k") == "MethodCall" and z.get("name") == "extract")
             if not exs:
                 continue
-            n += 1
-            key = "R-PY-FLOAT:%s:%s" % (fn.split("::")[-1], kname)
+            judge("R-PY-FLOAT:%s:%s" % (short, kname), kname, [inner_ty(mc.get("ty")) for mc in exs], exs[0])
+        # (2) lookups through a private helper: helper(opts, "key")
+        for call in tast.find(b["body"], lambda q: q.get("k") == "Call" and (q.get("def") or "").startswith(PY) and any(is_key(a_) for a_ in q.get("args", []))):
+            kname = next(a_["v"] for a_ in call["args"] if is_key(a_))
+            cty = call.get("ty") or ""
             tys = []
-            for mc in exs:
-                t = (mc.get("ty") or "")
-                inner = t[len("std::result::Result<"):].rsplit(", pyo3::PyErr>", 1)[0] if t.startswith("std::result::Result<") else t
-                tys.append(inner)
-            ints = [t for t in tys if t in INT_TYS or any(t == "std::vec::Vec<%s>" % it for it in INT_TYS)]
-            floats = [t for t in tys if "f64" in t or "f32" in t]
-            if ints and not (floats and tys.index(floats[0]) < tys.index(ints[0])):
-                rep.violation("R-PY-FLOAT", key, "`%s` is extracted from Python as %s before any float extraction: a float value (1.0, numpy.float64) fails the extraction and the "
-                              "setting is silently ignored" % (kname, ints[0]), exs[0].get("sp"))
-            elif not floats:
-                rep.inconc("R-PY-FLOAT", key, "extraction type(s) %s of `%s` not understood" % (tys, kname), exs[0].get("sp"))
+            if "f64" in cty or any(("<%s>" % it) in cty for it in INT_TYS):
+                tys = [cty.replace("std::option::Option<", "").rstrip(">")]
             else:
-                rep.ok("R-PY-FLOAT", key, "`%s` extracted as %s" % (kname, floats[0]))
+                cb = f.bodies.get(call["def"])
+                if cb is not None:
+                    tys = [inner_ty(mc.get("ty")) for mc in tast.find(cb["body"], lambda z: z.get("k") == "MethodCall" and z.get("name") == "extract")]
+            if tys:
+                judge("R-PY-FLOAT:%s:%s" % (short, kname), kname, tys, call)
     if n < 5:
         rep.inconc("R-PY-FLOAT", "R-PY-FLOAT:floor", "only %d float-valued settings found (expected >= 5: direction, rtol, atol, max_step, first_step)" % n)
+
+
+def r_py_sparsity_format(rep, f):
+    """the sparsity pattern is read column by column (`col_to_rows[col] = indices[indptr[col]..indptr[col+1]]`), which is the
+    meaning of `indices` / `indptr` only in compressed-sparse-COLUMN form: the conversion requested from SciPy must be
+    `tocsc`. With `tocsr` the same arrays describe rows and the grouping works on the transposed pattern."""
+    fn = "python::sparsity::SparsityStructure::from_python"
+    key = "R-PY-SPARSITY:%s" % fn
+    b = f.bodies.get(fn)
+    if b is None:
+        rep.inconc("R-PY-SPARSITY", key, "from_python not found in the python cfg")
+        return
+    rep.fn(fn)
+    conv = [q for q in tast.find(b["body"], lambda z: z.get("k") == "Lit" and z.get("lk") == "Str" and str(z.get("v", "")).startswith("to") and len(str(z.get("v"))) <= 8)]
+    fields = set()
+    for st in tast.find(b["body"], lambda z: z.get("k") == "Struct" and (z.get("def") or "").endswith("SparsityStructure")):
+        fields |= {fl["name"] for fl in st.get("fields", [])}
+    by_col = "col_to_rows" in fields
+    by_row = "row_to_cols" in fields
+    if not conv or not (by_col or by_row):
+        rep.inconc("R-PY-SPARSITY", key, "format conversion (%s) or the per-column / per-row field (%s) not found" % ([c.get("v") for c in conv], sorted(fields)))
+        return
+    want = "tocsc" if by_col else "tocsr"
+    bad = [c for c in conv if c.get("v") != want]
+    if bad:
+        rep.violation("R-PY-SPARSITY", key, "the pattern is stored per %s (`%s`) but converted with `%s()`: indices/indptr then describe the other axis and the column grouping runs on the transposed pattern"
+                      % ("column" if by_col else "row", "col_to_rows" if by_col else "row_to_cols", bad[0].get("v")), bad[0].get("sp"))
+    else:
+        rep.ok("R-PY-SPARSITY", key, "pattern stored per %s and converted with %s()" % ("column" if by_col else "row", want))
 
 
 def r_py_method(rep, f):
@@ -769,6 +827,8 @@ def run(rep, tier):
     r_py_colour(rep, f)
     rep.rule("R-PY-FLOAT", "settings SciPy documents as floats (event.direction, rtol, atol, max_step, first_step) are extracted as floats, not integers, where the failure of the extraction is silently dropped")
     r_py_float_extract(rep, f)
+    rep.rule("R-PY-SPARSITY", "a sparsity pattern stored per column (col_to_rows) is read from SciPy's compressed-sparse-column form (tocsc)")
+    r_py_sparsity_format(rep, f)
     # the statistics the binding copies are the ones C18 pairs with evaluations (python cfg compiles the same solvers)
     rep.explanation = ("Decides the binding's plumbing tables on the `--features python` build (type-checked without a Python interpreter): option routing, status mapping, array layout, argument passing, "
                        "extrapolating evaluation, method names. NOT decided: numerical equality with the Rust API as an execution through CPython, NumPy dtype conversions, "
